@@ -54,6 +54,7 @@ let facts_file file implfile brute_max =
          Printf.printf " emb=%d fzf=%d" (b (embedding_b idx n nhh N0)) (int_of_n (fzf_score c.cfg hr h idx));
          (match idx with i0 :: _ -> Printf.printf " contig=%d" (b (contiguous_from idx i0)) | [] -> ())
        | _ -> ());
+      if c.algo = Fuzzy then Printf.printf " dp=%d" (b (dp_taken c.cfg c.hs c.ns));
       (if c.algo = Fuzzy && n <> [] && List.length h * List.length n <= 150000 && List.length h <= 3000 then
          Printf.printf " naive=%s" (match naive_score c.cfg hr h n with None -> "-" | Some s -> string_of_int (int_of_n s)));
       if List.length h <= brute_max && n <> [] then
